@@ -309,7 +309,8 @@ func (h *Harness) ModulePackageSourceAddr(ctx context.Context, pkgAddr regaddr.M
 			}
 			// A registry client builds its answer from a URL value, not from text: the same
 			// address made through the constructor, from a URL that spells its escaped path out.
-			u := *src.Package().URL()
+			srcPkg := src.Package()
+			u := *srcPkg.URL()
 			u.RawPath = u.EscapedPath()
 			// ... and that names the host the way the registry's own text spells it
 			raw := v.Real
